@@ -28,7 +28,7 @@ func runBatchWire(t *testing.T, rc *RunCtx) {
 	pop := BigPopulation(t)
 	wireBatchOnce.Do(func() {
 		setupRC := &RunCtx{Property: "C09", Ch: NewSeedChoice(1), Stats: NewStats()}
-		perms := map[string][]*checker.Permissions{"client-test01": {{Path: "Big(Shared)?", Operations: []string{"All"}}}}
+		perms := map[string][]*checker.Permissions{"client-test01": {{Path: "Big(Shared|Batch)?", Operations: []string{"All"}}}}
 		wireBatchSrv = w.startServerPop(t, setupRC, perms, pop)
 	})
 	srv := wireBatchSrv
